@@ -113,6 +113,11 @@ def analyse(sess, outs, strict_lockstep=False):
                 if op.get("wf"):
                     F(i, ["C20"], "utils call panicked on a well-formed description")
                 continue
+            if kind == "decap" and op.get("of") is not None and strict_lockstep:
+                # a packet straight from the encapsulator, in a session whose receiver has all it needs
+                srcf = info.get(op["of"]) or {}
+                if srcf.get("ok") and srcf.get("kind"):
+                    props = props + ["C01" if srcf["kind"] == "C" else "C02"]
             F(i, props, "panic in %s" % kind)
             break
 
@@ -241,12 +246,13 @@ def analyse(sess, outs, strict_lockstep=False):
                 m[op["pt"]] = ("F", 0)
             pk = ref_parse(outb, m)
             if isinstance(pk, str):
-                F(i, P6 + (["C13"] if exts else []), "emitted packet does not parse (%s): %s" % (pk, outb[:24].hex()))
+                F(i, P6 + ["C10"] + (["C13"] if exts else []), "emitted packet does not parse (%s): %s" % (pk, outb[:24].hex()))
                 enc_state = o.state if kind != "encap_frag" else enc_state
                 continue
             fact["pkt"] = pk
             if pk.total != n:
-                F(i, P6 + (["C13"] if exts else []), "returned length %d but GSE length + 2 = %d" % (n, pk.total))
+                # (a frame walker advances by GSE length + 2: a packet laid with its reported length is then mis-framed)
+                F(i, P6 + ["C10"] + (["C13"] if exts else []), "returned length %d but GSE length + 2 = %d" % (n, pk.total))
             want_kind = {("encap", "C"): "C", ("encap", "F"): "F", ("encap_ext", "C"): "C", ("encap_ext", "F"): "F",
                          ("encap_frag", "C"): "E", ("encap_frag", "F"): "I"}[(kind, status)]
             fact["kind"] = want_kind
@@ -339,13 +345,14 @@ def analyse(sess, outs, strict_lockstep=False):
                     F(i, ["C11", "C02"], "context counts %d bytes, first fragment carried %d" % (npos, k))
                 if nf != op["fid"]:
                     F(i, ["C11"], "context frag id %d, passed %d" % (nf, op["fid"]))
-                if not exts and pk.total_len != 2 + wlen + len(pdu):
-                    F(i, P6 + ["C02"], "total length %s, expected %d" % (pk.total_len, 2 + wlen + len(pdu)))
+                if pk.total_len != (2 + wlen + len(pdu)) & 0xFFFF:
+                    F(i, P6 + ["C02"] + (["C13"] if exts else []), "total length %s, expected %d (protocol type + label as written + PDU)"
+                      % (pk.total_len, 2 + wlen + len(pdu)))
                 tl = (len(pdu) + 2 + wlen) & 0xFFFF
                 lb = pk.label.data if wl in "63" else b""
                 exp_crc = ref_gse_crc(pdu, op["pt"], tl, lb)
                 if ncrc != exp_crc:
-                    F(i, ["C12", "C02"], "context crc %08x, CRC-32/MPEG-2 of tl|pt|label|pdu is %08x" % (ncrc, exp_crc))
+                    F(i, ["C12", "C02"] + (["C13"] if exts else []), "context crc %08x, CRC-32/MPEG-2 of tl|pt|label|pdu is %08x" % (ncrc, exp_crc))
                 fact["payload_len"] = k
             # C01 second sentence: must be complete whenever it fits
             fits = (2 + wlen + len(pdu) <= 4095) and (4 + wlen + len(pdu) <= len(buf))
@@ -709,6 +716,20 @@ def sync_trains(i, o, trains, F):
             trains[fid] = "?"
 
 
+def nslots_at(sess, i):
+    """slot count of the receiver in use at op i (from the session's own dec_new ops)"""
+    tab = sess.__dict__.get("_ns_at")
+    if tab is None or len(tab) != len(sess.ops):
+        tab = []
+        cur = None
+        for q in sess.ops:
+            if q.get("op") == "dec_new":
+                cur = q.get("slots")
+            tab.append(cur)
+        sess._ns_at = tab
+    return tab[i] if i < len(tab) else None
+
+
 def decap_oracle(i, op, so, o, fed, mand, rx_last, trains, info, strict, sess, F):
     """judges one decap result against the independent parse of the bytes actually fed"""
     pk = ref_parse(fed, mand)
@@ -731,6 +752,7 @@ def decap_oracle(i, op, so, o, fed, mand, rx_last, trains, info, strict, sess, F
         return rx_last
     n = pk.total
     cons = dec_consumed(so)
+    train_before = trains.get(pk.frag_id) if pk.kind in "IE" else None
     if pk.kind == "F" and so.err and so.toks[1].startswith("Memory.overflow") and sess.__dict__.get("_prev_mem"):
         pm = sess._prev_mem
         nslots = pm["n"] or 0
@@ -821,7 +843,11 @@ def decap_oracle(i, op, so, o, fed, mand, rx_last, trains, info, strict, sess, F
                 elif so.toks[1] != "F":
                     F(i, ["C02"], "intermediate fragment answered with status %s" % so.toks[1])
         else:
-            if pk.kind == "E" and t is not None and t != "?" and so.toks[1] in ("Crc", "TotalLength"):
+            # the ghost of C03 (Lemmas/Reassembly.lean, trainStep): a refused fragment of the tracked id closes the
+            # train — whatever the implementation did with its context — except an intermediate packet without
+            # payload (GseLength) and an end packet shorter than id + trailer (SizeBuffer), which are not fragments
+            # of the train at all.  A later delivery on this id is then "accepted without a reassembly".
+            if t is not None and ((pk.kind == "I" and so.toks[1] != "GseLength") or (pk.kind == "E" and so.toks[1] != "SizeBuffer")):
                 trains.pop(pk.frag_id, None)
     # lock-step expectations: the packet came straight from the encapsulator, every earlier packet was
     # fed too, and storage is sufficient by construction of the session
@@ -837,14 +863,32 @@ def decap_oracle(i, op, so, o, fed, mand, rx_last, trains, info, strict, sess, F
                 pass                         # re-use after a start/complete packet the receiver had to drop
             elif pk.kind in "IE" and so.toks[1] == "Memory.undefined" and pk.frag_id in sess.__dict__.get("_rejected", set()):
                 pass                         # continuation of a train whose first fragment was rightly refused
+            elif pk.kind in "IE" and so.toks[1] == "Memory.undefined" and pk.frag_id in sess.__dict__.get("_orphaned", set()):
+                pass                         # continuation of a train that was replaced by one on an aliasing frag id
             else:
-                F(i, ["C01" if pk.kind == "C" else "C02", "C04"] + (["C13"] if pk.exts else []),
+                tr = train_before
+                with_exts = bool(pk.exts) or (tr is not None and tr != "?" and bool(tr.exts))
+                F(i, ["C01" if pk.kind == "C" else "C02", "C04"] + (["C13"] if with_exts else []),
                   "packet produced by the encapsulator rejected: %s" % so.res)
                 sess._strict_ok = False
             if pk.kind == "F":
                 sess.__dict__.setdefault("_rejected", set()).add(pk.frag_id)
         if so.ok and pk.kind == "F":
             sess.__dict__.setdefault("_rejected", set()).discard(pk.frag_id)
+            # trains in flight by the session's own book-keeping (not the observed state): an accepted first
+            # fragment replaces whatever train shares its slot
+            ns = nslots_at(sess, i)
+            opened = sess.__dict__.setdefault("_open_fids", set())
+            orph = sess.__dict__.setdefault("_orphaned", set())
+            orph.discard(pk.frag_id)
+            if ns:
+                for g in list(opened):
+                    if g != pk.frag_id and g % ns == pk.frag_id % ns:
+                        opened.discard(g)
+                        orph.add(g)
+            opened.add(pk.frag_id)
+        if so.ok and pk.kind == "E":
+            sess.__dict__.setdefault("_open_fids", set()).discard(pk.frag_id)
         if so.ok and pk.kind in "CF" and pk.lt in "63":
             sess._label_desync = False
         if so.ok and pk.kind in "CF" and src.get("intended") is not None:
